@@ -4,6 +4,8 @@
 #[cfg(kani)]
 mod reader;
 #[cfg(kani)]
+mod refcodec;
+#[cfg(kani)]
 mod c08;
 #[cfg(kani)]
 mod c06;
